@@ -180,6 +180,49 @@ fn run(input: &Tree) -> Option<Tree> {
             let b = EcIndividual::new(vec64(&ib[0])?, tres(&ib[1])?);
             ops(&a, &b, None)
         }
+        14 => {
+            // the same operators at other integer result types (the order is generic in the wrapped type)
+            let (ty, pol) = (l.get(1)?.int()?, l.get(2)?.int()?);
+            let (x, y) = (l.get(3)?.int()?, l.get(4)?.int()?);
+            macro_rules! at {
+                ($t:ty) => {{
+                    let (x, y) = (<$t>::try_from(x).ok()?, <$t>::try_from(y).ok()?);
+                    if pol == 0 { ops_ord(&Score(x), &Score(y)) } else { ops_ord(&Error(x), &Error(y)) }
+                }};
+            }
+            match ty {
+                0 => at!(i8),
+                1 => at!(u8),
+                2 => at!(i32),
+                3 => at!(u64),
+                4 => at!(i128),
+                5 => at!(usize),
+                _ => return None,
+            }
+        }
+        15 => {
+            // totals at other integer result types
+            let ty = l.get(1)?.int()?;
+            let v: Vec<i128> = l.get(2)?.list()?.iter().map(Tree::int).collect::<Option<_>>()?;
+            macro_rules! at {
+                ($t:ty) => {{
+                    let v: Vec<$t> = v.iter().map(|x| <$t>::try_from(*x).ok()).collect::<Option<_>>()?;
+                    let r: TestResults<Score<$t>> = v.clone().into();
+                    let e: TestResults<Error<$t>> = v.into_iter().collect();
+                    let mut out = vec![a(r.total_result.0 as i128), a(e.total_result.0 as i128)];
+                    out.extend(r.results.iter().map(|s| a(s.0 as i128)));
+                    L(out)
+                }};
+            }
+            match ty {
+                0 => at!(i8),
+                1 => at!(u8),
+                2 => at!(i32),
+                3 => at!(u64),
+                5 => at!(usize),
+                _ => return None,
+            }
+        }
         13 => {
             // floating-point results: the total is the IN-ORDER sum (addition is not associative there)
             let bits: Vec<u64> = l.get(2)?.list()?.iter().map(Tree::u64).collect::<Option<_>>()?;
@@ -280,6 +323,31 @@ fn gen(tier: &str, rng: &mut Sm) -> Gen {
         let (x, y) = (rng.next() as i64, rng.next() as i64);
         g.inputs.push(tl![A(rng.below(2) as i128), a(x), a(if rng.chance(1, 4) { x } else { y })]);
     }
+    // other integer result types: all pairs over each type's boundary values, and small totals
+    let bounds: [(i128, Vec<i128>); 6] = [
+        (0, vec![i8::MIN as i128, -1, 0, 1, i8::MAX as i128]),
+        (1, vec![0, 1, 127, 128, u8::MAX as i128]),
+        (2, vec![i32::MIN as i128, -1, 0, 1, i32::MAX as i128]),
+        (3, vec![0, 1, i64::MAX as i128, i64::MAX as i128 + 1, u64::MAX as i128]),
+        // (the wire format carries atoms from -2^63 to 2^64 - 1)
+        (4, vec![i64::MIN as i128, -1, 0, i64::MAX as i128 + 1, u64::MAX as i128]),
+        (5, vec![0, 1, 255, 256, usize::MAX as i128]),
+    ];
+    for (ty, vals) in &bounds {
+        for x in vals {
+            for y in vals {
+                g.inputs.push(tl![A(14), a(*ty), A(0), a(*x), a(*y)]);
+                g.inputs.push(tl![A(14), a(*ty), A(1), a(*x), a(*y)]);
+            }
+        }
+        if *ty != 4 {
+            let lo = if vals[0] < 0 { -3 } else { 0 };
+            for _ in 0..6 {
+                let v: Vec<Tree> = (0..rng.below(6)).map(|_| a(rng.range(lo, 6) as i128)).collect();
+                g.inputs.push(tl![A(15), a(*ty), L(v)]);
+            }
+        }
+    }
     // float results: long vectors whose in-order sum differs from any regrouped sum
     let fl = |v: &[f64]| L(v.iter().map(|x| a(x.to_bits() as i128)).collect());
     let mut big = vec![1e16];
@@ -295,6 +363,6 @@ fn gen(tier: &str, rng: &mut Sm) -> Gen {
         let v: Vec<f64> = (0..len).map(|_| if rng.chance(1, 3) { 1.0 } else { *rng.pick(FVALS) }).collect();
         g.inputs.push(tl![A(13), a(rng.below(2) as i128), fl(&v)]);
     }
-    g.meta("generator", "all pairs over 9 boundary values for Score/Error/TestResult/singleton TestResults; random result vectors (equal totals with different cases, reversed, empty), individuals with equal/different genomes, aggregation, scoring; min / max / clamp; clone_from (also through Vec); individuals scored by a single score-or-error result; f64 results (vectors of 0..70 values of very different magnitudes: the in-order sum differs from regrouped sums)");
+    g.meta("generator", "all pairs over 9 boundary values for Score/Error/TestResult/singleton TestResults; random result vectors (equal totals with different cases, reversed, empty), individuals with equal/different genomes, aggregation, scoring; min / max / clamp; clone_from (also through Vec); individuals scored by a single score-or-error result; the comparison operators and totals at i8 / u8 / i32 / u64 / i128 / usize result types over each type's boundary values; f64 results (vectors of 0..70 values of very different magnitudes: the in-order sum differs from regrouped sums)");
     g
 }
